@@ -599,8 +599,12 @@ def check_scalar(item: dict) -> List[dict]:
     if item.get("mutant"):
         from . import selftest_orm
         mut = selftest_orm.patched(item["mutant"])
-    with mut:
-        _run_scalar(chk, item)
+    try:
+        V.set_alphabet(item.get("extra_alphabet", ""))
+        with mut:
+            _run_scalar(chk, item)
+    finally:
+        V.set_alphabet("")
     for r in chk.res:
         r["term"] = chk.term
         if item.get("family") == "selftest":
